@@ -798,6 +798,15 @@ class AsyncFIXConnection:
                     return
                 await self._state_set(ConnectionState.LOGON_INITIAL_RECV)
                 self._connection_role = ConnectionRole.ACCEPTOR
+            elif (
+                self._connection_state == ConnectionState.LOGON_INITIAL_SENT
+                and msg.msg_type != FMsg.LOGON
+                and msg.msg_type != FMsg.LOGOUT
+            ):
+                # Initiator is still waiting for the Logon() response: only that
+                #  response (or a Logout() refusing it) may come first
+                await self.disconnect(ConnectionState.DISCONNECTED_BROKEN_CONN)
+                return
 
             if msg.msg_type == FMsg.LOGON:
                 await self._process_logon(msg)
